@@ -328,7 +328,9 @@ def _make_input(kind, shape, dtype, special="2d"):
     if kind == "array-rgb":
         return rgb()
     if kind == "scalar":
-        return darsia.ScalarImage(payload(shape, dtype), dimensions=dims, date=D0, reference_date=D0 - datetime.timedelta(hours=1), name="scalar")
+        im = darsia.ScalarImage(payload(shape, dtype), dimensions=dims, date=D0, reference_date=D0 - datetime.timedelta(hours=1), time=7.25, name="scalar")
+        im.set_time(7.25)  # explicit relative time, deliberately NOT date - reference_date (given to the constructor and set again afterwards)
+        return im
     if kind == "image":
         return darsia.Image(rgb(), space_dim=2, scalar=False, dimensions=dims, origin=[1.0, 4.0], time=1.5, name="general")
     if kind == "optical":
@@ -350,15 +352,18 @@ def _make_input(kind, shape, dtype, special="2d"):
     if kind == "scalar-series":
         return darsia.ScalarImage(payload(shape + (NT,), dtype), dimensions=dims, series=True, time=[0.0, 2.5], name="scalar-series")
     if kind == "optical-series":
-        return darsia.OpticalImage(
+        im = darsia.OpticalImage(
             rgb(NT),
             dimensions=dims,
             series=True,
             date=[D0 + datetime.timedelta(hours=k) for k in range(NT)],
             reference_date=D0 - datetime.timedelta(hours=1),
+            time=[45.0 * k + 0.5 for k in range(NT)],  # as after append(offset=...): not what the dates imply
             color_space="BGR" if not rgb_special else "RGB",
             name="optical-series",
         )
+        im.set_time([45.0 * k + 0.5 for k in range(NT)])
+        return im
     if kind == "scalar3d":
         return darsia.Image(payload(shape, dtype), space_dim=3, scalar=True, dimensions=dims, time=0.5, name="scalar3d")
     if kind == "scalar3d-series":
